@@ -17,4 +17,12 @@ def jobs(tier):
     for op in (4, 5, 6, 7, 8, 9):
         out.append(dict(name='cmp_op%d' % op, src='h_action.cpp', defs={'CMPOP': op}, entry='h_cmp', tus=TUS, fp='real', loopmax=4000, maxsteps=4000000, bounds='comparator token %d' % op))
     out.append(dict(name='ready_step', src='h_action.cpp', defs={}, entry='h_ready', tus=TUS2, fp='ieee', loopmax=4000, maxsteps=4000000, bounds='arbitrary prior state, one step'))
+    AT = ['opm/input/eclipse/Schedule/Action/%s.cpp' % n for n in ('ASTNode', 'ActionAST', 'ActionContext', 'ActionParser', 'ActionResult', 'ActionValue', 'Enums')] + [
+          'opm/input/eclipse/Schedule/SummaryState.cpp', 'opm/input/eclipse/Schedule/Well/WListManager.cpp', 'opm/input/eclipse/Schedule/Well/WList.cpp', 'opm/common/utility/TimeService.cpp',
+          'opm/common/utility/shmatch.cpp', 'opm/common/utility/String.cpp', 'opm/input/eclipse/EclipseState/SummaryConfig/SummaryConfig.cpp']
+    for f in range(6):
+        out.append(dict(name='parse_scalar_form%d' % f, src='h_actparse.cpp', defs={'FORM': f}, entry='h_scalar_conditions', tus=AT, fp='real', loopmax=20000, maxsteps=80000000, timeout=900, opts=['--ctors'],
+                        bounds='three field comparisons, form %d of AND/OR/parentheses, all real values away from the threshold' % f))
+        out.append(dict(name='parse_wells_form%d' % f, src='h_actparse.cpp', defs={'FORM': f}, entry='h_well_conditions', tus=AT, fp='real', loopmax=20000, maxsteps=80000000, timeout=900, opts=['--ctors'],
+                        bounds='two well comparisons over 3 wells and one field comparison, form %d' % f))
     return out
